@@ -239,6 +239,12 @@ def add_gmp_natives(reg):
          ensures={'div': '(result != 0) == (%s == 0 if %s == 0 else %s %% %s == 0)' % (A, B, A, B)}, doc='(only 0 is divisible by 0)')
     _mpz(reg, 'mpz_divisible_ui_p', [('a', 'z'), ('v', 'u')], requires=['v != 0'], result='int',
          ensures={'div': '(result != 0) == (%s %% v == 0)' % A})
+    _mpz(reg, 'mpz_sqrt', [('r', 'z'), ('a', 'z')], requires=['%s >= 0' % A], result='none',
+         ensures={'isqrt': 'spec.integer.is_isqrt(old(%s), r.g_val)' % A}, doc='(truncated integer part of the square root)')
+    reg.contracts['native.gmp.mpz_sqrt'].modifies = ['r.g_val']
+    _mpz(reg, 'mpz_perfect_square_p', [('a', 'z')], result='int',
+         ensures={'square': '(result != 0) == (%s >= 0 and spec.integer.isqrt(%s) * spec.integer.isqrt(%s) == %s)' % (A, A, A, A)},
+         doc='(non-zero iff a is a perfect square; 0 and 1 are perfect squares)')
     _mpz(reg, 'mpz_import', [('r', 'z'), ('count', 'u'), ('order', 'i'), ('size', 'u'), ('endian', 'i'), ('nails', 'u'), ('data', 'b')],
          requires=['order == 1', 'size == 1', 'nails == 0', 'count == len(data)'], sets={'r': 'be(data)'},
          doc='(most significant word first, 1-byte words)')
@@ -337,8 +343,7 @@ def units(prop, tier):
 # NOT PROVED: IntegerGMP.__init__ / __int__: 32-bit slot loops over mpz calls (invariant over 2**(32*slots), `value |= lsb << ...`);
 #             assumed with the shared clauses, bounded: bounded/bigint.py.
 # NOT PROVED: IntegerGMP.to_bytes: list comprehension over a symbolic number of limbs and a struct format of symbolic length.
-# NOT PROVED: IntegerGMP.sqrt / is_perfect_square / jacobi_symbol, IntegerGMP.__del__: not attempted (mpz_sqrt, mpz_perfect_square_p,
-#             mpz_jacobi would be assumed natives; the wrappers are two-line guards).
+# NOT PROVED: IntegerGMP.jacobi_symbol, IntegerGMP.__del__, IntegerGMP.sqrt with a modulus: not attempted.
 # NOT PROVED: Crypto.Math.Numbers back-end selection: module-level try/except import statements, not a function -- PYVC verifies
 #             functions.  (Read: PYCRYPTODOME_DISABLE_GMP set or any ImportError/OSError/AttributeError from _IntegerGMP selects
 #             IntegerCustom; ImportError/OSError there selects IntegerNative.  The three classes satisfy the same clauses, which is
